@@ -21,7 +21,8 @@
    - [legal_history]: every operation is strictly legal and no two accepted
      headers share a hash (collision freedom of the header hash). *)
 From Coq Require Import Permutation.
-From VF.C18 Require Import Model ProofsA ProofsB ProofsC ProofsD ProofsE ProofsF ProofsG ProofsH ProofsI ProofsJ.
+From VF.C18 Require Import Model ProofsA ProofsB ProofsC ProofsD ProofsE ProofsF ProofsG ProofsH ProofsI ProofsJ Bridge.
+From VF.gen Require Import C18Locks.
 Local Open Scope N_scope.
 
 (* 1. Order, exactly once - for EVERY operation sequence, legal or not: the
@@ -156,6 +157,23 @@ Theorem C18_completion_by_nonempty_answerer :
       t_scheduled t' = t_scheduled t /\ map r_hdr (t_released t') = t_scheduled t.
 Proof. exact completion_by_nonempty_answerer. Qed.
 Print Assumptions C18_completion_by_nonempty_answerer.
+
+(* 8. Bridge (regenerated from you/downloader/*.go on every run): "one operation
+   of the model = one critical section of q.lock".  Every exported method of the
+   queue touches shared fields only while holding q.lock - directly or through
+   the queue methods it calls - except the three pinned Cancel* wrappers, which
+   read pool references before cancel() locks and are never called in this fork;
+   every operation the model uses is inside the discipline; the only unexported
+   member used from another file is headerContCh (header download). *)
+Theorem C18_lock_discipline : discipline_holds = true.
+Proof. exact lock_discipline. Qed.
+Print Assumptions C18_lock_discipline.
+
+Theorem C18_lock_discipline_every_entry_point :
+  forall e, In e c18_methods -> e_exported e = true ->
+    needs_lock 8 c18_methods e = false \/ In (e_name e) pinned_exceptions.
+Proof. exact lock_discipline_forall. Qed.
+Print Assumptions C18_lock_discipline_every_entry_point.
 
 (* The property, all clauses, for legal histories. *)
 Definition C18_full : Prop :=
